@@ -1,6 +1,8 @@
 (* C15 — the RESOLVE_AGAIN loop of getResolverNode: what it returns, why its redirectHistory
    bounds it, and that a redirect cycle is reported. *)
-From Verif Require Import Base.Prelude Chain.Model Chain.Lemmas.
+From Verif Require Import Base.Prelude.
+From Verif Require Import Chain.Model.
+From Verif Require Import Chain.Lemmas.
 Local Open Scope string_scope.
 Local Open Scope list_scope.
 
